@@ -59,6 +59,7 @@ PROPS = {
             part("v2in", "TestVerif_C04_CallerBytes", "caller-bytes", 400, 8000, shards=(4, 8)),
             part("v2in", "TestVerif_C04_Repeat", "repeat", 0, 0, shards=(4, 8), enum=True, compare_digest=True),
             part("v2in", "TestVerif_C04_Repetitive", "repetitive", 1600, 40000, shards=(4, 16)),
+            part("v2in", "TestVerif_C04_Nested", "nested-documents", 1600, 40000, shards=(4, 16)),
         ],
     },
     "C05": {
